@@ -163,7 +163,7 @@ async def scripted(events: List[str], seed: int) -> Dict[str, Any]:
                 return RecServerSession(s_sink, holder)
         c, s, hub = await pair.make_pair(server_factory=Srv, server_opts=dict(encoding=None, **opts),
                                          client_opts=dict(**opts))
-        chan, sess = await c.create_session(lambda: RecSession(c_sink), 'run', encoding=None)
+        chan, sess = await asyncio.wait_for(c.create_session(lambda: RecSession(c_sink), 'run', encoding=None), 15)
         await pair.settle(10)
         schan = holder[0]
         hub.auto = False
@@ -277,7 +277,7 @@ async def busy_session(rekey_c: int, rekey_s: int, sizes: List[int], seed: int, 
                 client_opts=dict(rekey_bytes=rekey_c, **algs), chunker=pair.seeded_chunker(rng, 200)), 20)
             sent = b''
             got = b''
-            proc = await c.create_process('echo', encoding=None)
+            proc = await asyncio.wait_for(c.create_process('echo', encoding=None), 15)
             for n in sizes:
                 blob = bytes([rng.randrange(256)]) * n
                 proc.stdin.write(blob)
@@ -292,6 +292,12 @@ async def busy_session(rekey_c: int, rekey_s: int, sizes: List[int], seed: int, 
             await pair.settle()
         except Exception as e:
             out['error'] = f'{type(e).__name__}: {e}'
+            for t in list(getattr(locals().get('hub'), 'trans', {}).values()) if 'hub' in locals() else []:
+                try:
+                    t.proto.abort()
+                except Exception:
+                    pass
+            await pair.settle(5)
             return out
         out['rekeys'] = len(kt.keys.get(id(c), []))
         out['sids'] = (len(set(h for _k, h in kt.keys.get(id(c), [])[:1])),)
@@ -335,7 +341,15 @@ def oracle(ctx: Ctx) -> OracleResult:
         cases.append((rc, rs, sizes, rng.randrange(1 << 30), algs))
 
     async def run_all() -> List[Dict[str, Any]]:
-        return [await busy_session(*c) for c in cases]
+        outs: List[Dict[str, Any]] = []
+        errs = 0
+        for c in cases:
+            o = await busy_session(*c)
+            outs.append(o)
+            errs += 'error' in o
+            if errs >= 6:       # sessions hang or fail: the failing inputs are found, do not wait out all the others
+                break
+        return outs
     outs = pair.run(run_all(), timeout=3300)
     for o in outs:
         res.evaluations += 1
